@@ -1,6 +1,6 @@
 (* BezierIEEETight: T01g for the binary32 instance with a four times larger
    range than BezierIEEE.T01g_ieee_bounded: n control points, finite
-   coordinates |x| <= 2^E, n * 2^E <= 2^21.
+   coordinates |x| <= 2^E, n * 2^E <= 2^22.
 
    The argument does not go through the exact child.  Read over the reals,
    a computed row of the de Casteljau triangle is an APPROXIMATE averaging
@@ -16,9 +16,9 @@
        approximate averaging step stays one when both rows are reversed).
    So with D a bound on the parent's second differences, those of either
    child are bounded by (D + 4(n-3)u)/4 + 3u = D/4 + n u              [ltri_dd].
-   Fixed point 4nu/3; with n * 2^E <= 2^21: nu <= 2^-3 (+ 2^-129), fixed
+   Fixed point 4nu/3; with n * 2^E <= 2^22: nu <= 2^-3 (+ 2^-128), fixed
    point <= 3/16; the flatness test is false once both second differences are
-   <= 9/32 (E <= 19, rounding error of p - 2c at most 1/16); depth 19. *)
+   <= 7/32 (E <= 20, rounding error of p - 2c at most 1/8); depth 19. *)
 From RM Require Import Model.ControlPoints Model.Curve Proofs.BezierTermination Proofs.DeCasteljau
      Proofs.BezierEqualPoints Proofs.BezierIEEEScalar Proofs.BezierIEEE.
 From Flocq Require Import Core BinarySingleNaN.
@@ -250,17 +250,17 @@ Section F32.
   Qed.
 
   (* depth *)
-  Lemma within_tight a : (E <= 19)%Z -> 0 <= a ->
+  Lemma within_tight a : (E <= 20)%Z -> 0 <= a ->
     forall d pts D,
     pts <> [] -> Inv E D pts -> 0 <= D ->
-    a + 4 / 3 * (INR (length pts) * uE E) <= 9 / 32 ->
+    a + 4 / 3 * (INR (length pts) * uE E) <= 7 / 32 ->
     D <= a * 4 ^ d + 4 / 3 * (INR (length pts) * uE E) ->
     within32 d pts.
   Proof.
-    intros H19 Ha. induction d as [|d IH]; intros pts D Hne HI H0 HF HD.
+    intros H20 Ha. induction d as [|d IH]; intros pts D Hne HI H0 HF HD.
     - split; [exact Hne|]. left. apply (Inv_flat_gen D); [lia|exact HI|].
-      assert (bp (E - 23) <= 1 / 16).
-      { replace (1 / 16) with (bp (-4)) by (cbn; lra). apply bpow_le. lia. }
+      assert (bp (E - 23) <= 1 / 8).
+      { replace (1 / 8) with (bp (-3)) by (cbn; lra). apply bpow_le. lia. }
       cbn [pow] in HD. lra.
     - split; [exact Hne|]. right.
       destruct (Inv_children_tight D pts H0 HI) as [IL IR]. cbv zeta in IL, IR.
@@ -282,57 +282,57 @@ End F32.
 
 (* ---------- the constants ---------- *)
 
-(* n * 2^E <= 2^21: n * u <= 2^-3 + 2^-129 *)
-Lemma noise_bound_tight E n : (0 <= E)%Z -> (Z.of_nat n * 2 ^ E <= 2 ^ 21)%Z ->
-  INR n * uE E <= bp (-3) + bp (-129).
+(* n * 2^E <= 2^22: n * u <= 2^-3 + 2^-128 *)
+Lemma noise_bound_tight E n : (0 <= E)%Z -> (Z.of_nat n * 2 ^ E <= 2 ^ 22)%Z ->
+  INR n * uE E <= bp (-3) + bp (-128).
 Proof.
   intros HE HK. unfold uE. rewrite Rmult_plus_distr_l. apply Rplus_le_compat.
-  - replace (E - 24)%Z with (E + -24)%Z by ring. rewrite bpow_plus, <- Rmult_assoc.
-    replace (bp (-3)) with (bp 21 * bp (-24)) by (rewrite <- bpow_plus; reflexivity).
+  - replace (E - 25)%Z with (E + -25)%Z by ring. rewrite bpow_plus, <- Rmult_assoc.
+    replace (bp (-3)) with (bp 22 * bp (-25)) by (rewrite <- bpow_plus; reflexivity).
     apply Rmult_le_compat_r; [apply bpow_ge_0|].
-    rewrite INR_IZR_INZ, <- (IZR_Zpower radix2 E HE), <- (IZR_Zpower radix2 21) by lia.
+    rewrite INR_IZR_INZ, <- (IZR_Zpower radix2 E HE), <- (IZR_Zpower radix2 22) by lia.
     rewrite <- mult_IZR. apply IZR_le. exact HK.
-  - replace (bp (-129)) with (bp 21 * bp (-150)) by (rewrite <- bpow_plus; reflexivity).
+  - replace (bp (-128)) with (bp 22 * bp (-150)) by (rewrite <- bpow_plus; reflexivity).
     apply Rmult_le_compat_r; [apply bpow_ge_0|].
-    assert (Hn : (Z.of_nat n <= 2097152)%Z).
+    assert (Hn : (Z.of_nat n <= 4194304)%Z).
     { assert (0 < 2 ^ E)%Z by (apply Z.pow_pos_nonneg; lia).
-      change (2 ^ 21)%Z with 2097152%Z in HK. nia. }
-    rewrite INR_IZR_INZ, <- (IZR_Zpower radix2 21) by lia. apply IZR_le. exact Hn.
+      change (2 ^ 22)%Z with 4194304%Z in HK. nia. }
+    rewrite INR_IZR_INZ, <- (IZR_Zpower radix2 22) by lia. apply IZR_le. exact Hn.
 Qed.
 
 Theorem within32_bounded_tight E points :
-  (0 <= E)%Z -> (Z.of_nat (length points) * 2 ^ E <= 2 ^ 21)%Z ->
+  (0 <= E)%Z -> (Z.of_nat (length points) * 2 ^ E <= 2 ^ 22)%Z ->
   points <> [] -> Forall (point_ok E) points ->
   within32 19 points.
 Proof.
   intros HE HK Hne Hok.
   destruct (Nat.le_gt_cases (length points) 2) as [Hs|Hl].
   { apply (within_mono _ _ 0); [|lia]. split; [exact Hne|]. left. apply flat_short, Hs. }
-  assert (H2E : (2 ^ E < 2 ^ 20)%Z).
+  assert (H2E : (2 ^ E < 2 ^ 21)%Z).
   { assert (3 <= Z.of_nat (length points))%Z by lia.
     assert (0 < 2 ^ E)%Z by (apply Z.pow_pos_nonneg; lia).
-    change (2 ^ 21)%Z with 2097152%Z in HK. change (2 ^ 20)%Z with 1048576%Z. nia. }
-  assert (H19 : (E <= 19)%Z).
-  { assert (E < 20)%Z by (apply (Z.pow_lt_mono_r_iff 2); lia). lia. }
+    change (2 ^ 22)%Z with 4194304%Z in HK. change (2 ^ 21)%Z with 2097152%Z. nia. }
+  assert (H20 : (E <= 20)%Z).
+  { assert (E < 21)%Z by (apply (Z.pow_lt_mono_r_iff 2); lia). lia. }
   assert (HE' : (0 <= E <= 126)%Z) by lia.
   pose proof (noise_bound_tight E _ HE HK) as HN.
-  assert (Hsmall : bp (-3) + bp (-129) <= 9 / 64).
+  assert (Hsmall : bp (-3) + bp (-128) <= 9 / 64).
   { replace (bp (-3)) with (8 / 64) by (cbn; lra).
-    assert (bp (-129) <= bp (-6)) by (apply bpow_le; lia).
+    assert (bp (-128) <= bp (-6)) by (apply bpow_le; lia).
     replace (bp (-6)) with (1 / 64) in H by (cbn; lra). lra. }
   assert (Hnn : 0 <= INR (length points) * uE E)
     by (apply Rmult_le_pos; [apply pos_INR|pose proof (uE_pos E); lra]).
-  apply (within_tight E HE' (3 / 32) H19 ltac:(lra) 19 points (4 * bp E)); try assumption.
+  apply (within_tight E HE' (1 / 32) H20 ltac:(lra) 19 points (4 * bp E)); try assumption.
   - apply Inv_initial. exact Hok.
   - pose proof (bpow_ge_0 radix2 E). lra.
   - lra.
-  - assert (bp E <= bp 19) by (apply bpow_le; exact H19).
-    replace (bp 19) with 524288 in H by (cbn; lra).
+  - assert (bp E <= bp 20) by (apply bpow_le; exact H20).
+    replace (bp 20) with 1048576 in H by (cbn; lra).
     assert (4 ^ 19 = 274877906944) by (cbn [pow]; lra). lra.
 Qed.
 
 Theorem T01g_ieee_bounded_tight E path points :
-  (0 <= E)%Z -> (Z.of_nat (length points) * 2 ^ E <= 2 ^ 21)%Z ->
+  (0 <= E)%Z -> (Z.of_nat (length points) * 2 ^ E <= 2 ^ 22)%Z ->
   points <> [] -> Forall (point_ok E) points ->
   exists path', approximate_bezier_L1 bezier_fuel path points tt = Done (path', tt).
 Proof.
